@@ -57,6 +57,7 @@ type c12Plan struct {
 	// FC (failed-creation plans): how the init code of an inner CREATE ends ("small" = succeeds, "big" =
 	// code deposit cannot be paid, "toolarge", "revert", "invalid"), the endowment, whether the init code
 	// pays the sink, and the gas limit of the transaction.
+	NodeTx  int    `json:"nodetx,omitempty"` // operator-node plans: 1 = [logging call, node tx], 2 = [node tx alone], 3 = [creation, node tx]
 	FC      string `json:"fc,omitempty"`
 	FCTop   bool   `json:"fctop,omitempty"` // the creation is a contract-creation transaction, not an inner CREATE
 	FCValue uint64 `json:"fc_value,omitempty"`
@@ -85,7 +86,7 @@ func (c12) Budget(tier string) runner.Budget {
 
 func (c12) Describe() runner.Description {
 	return runner.Description{
-		Rule:        "call-tree plans (85%): a seeded tree of 2..14 frames (depth <=5), each a deployed contract with effects (SSTORE of a per-frame slot, SSTORE / clearing of a slot shared by the storage context and committed non-empty beforehand, LOG1, 1-wei transfer to a sink, transfer of the whole balance to the sink (balance exactly 0), 1-wei payment to the root contract, CREATE of a 1-byte contract), children called by CALL / CALLCODE / DELEGATECALL / STATICCALL with full or limited gas, and an ending (RETURN, REVERT, INVALID, infinite loop, stack fault); the root gas limit is ample or starved at a seeded point. Every successful frame returns the bitmap of frames of its subtree whose effects must persist; the transaction runs through the real block executor. Oracle: final storage of every frame slot, the ordered receipt logs, sink and contract balances, contract nonces and the set of created accounts equal exactly the effects of the frames in the returned bitmap (failed frames and their subtrees contribute nothing); no frame inside a STATICCALL subtree that has effects may report success and nothing from such a subtree may persist; a failed root leaves the whole state as before except fee/nonce of the sender. Failed-creation plans (8%): a contract runs an inner CREATE (40%: CREATE2) whose init code stores, logs and optionally pays out of its endowment and then ends by returning 1 byte / 32 recognisable bytes from a frame that grew its memory beyond 4 KiB, followed by another memory-hungry frame (the deployed code must be exactly those bytes) / 200000 bytes (code deposit unpayable at the lower gas limits) / 250000 bytes (over the size limit) / REVERT / INVALID; the creator records what CREATE pushed; if it reported failure no account, storage, balance or log of the creation frame may remain and the endowment is back with the creator; in 30% of them the same init code is a contract-creation TRANSACTION: a failed one leaves no account and its receipt carries no log, a successful one has all effects. Stake-opcode plans (5%): a contract that is the account of a registered miner executes the node's STAKE / UNSTAKE / UNSTAKEALL opcode inside a STATICCALL (25%: plain CALL as control); its balance and the miner record must be unchanged afterwards; or a contract AUTHs itself with an externally owned account's signature and AUTHCALLs a sink with value inside a STATICCALL: the account's nonce and the sink's balance must be unchanged. Cross-transaction plans (15%): 2-4 identical-shaped transactions in one block, each TLOADs a slot, records it, TSTOREs, touches storage and logs: every transaction must read transient storage empty, pay the same gas (no warm access list inherited), and its receipt must carry exactly its own log; in half of them the transactions only warm ADDRESSES (account-access opcodes, an inner CREATE, a deployment transaction) and every probe transaction not first in the block must use exactly the gas it uses alone in a block on the same parent state. distinct_nontrivial = distinct tree shapes (kinds, endings, effects, gas shares) with at least one failing inner frame.",
+		Rule:        "call-tree plans (85%): a seeded tree of 2..14 frames (depth <=5), each a deployed contract with effects (SSTORE of a per-frame slot, SSTORE / clearing of a slot shared by the storage context and committed non-empty beforehand, LOG1, 1-wei transfer to a sink, transfer of the whole balance to the sink (balance exactly 0), 1-wei payment to the root contract, CREATE of a 1-byte contract), children called by CALL / CALLCODE / DELEGATECALL / STATICCALL with full or limited gas, and an ending (RETURN, REVERT, INVALID, infinite loop, stack fault); the root gas limit is ample or starved at a seeded point. Every successful frame returns the bitmap of frames of its subtree whose effects must persist; the transaction runs through the real block executor. Oracle: final storage of every frame slot, the ordered receipt logs, sink and contract balances, contract nonces and the set of created accounts equal exactly the effects of the frames in the returned bitmap (failed frames and their subtrees contribute nothing); no frame inside a STATICCALL subtree that has effects may report success and nothing from such a subtree may persist; a failed root leaves the whole state as before except fee/nonce of the sender. Failed-creation plans (8%): a contract runs an inner CREATE (40%: CREATE2) whose init code stores, logs and optionally pays out of its endowment and then ends by returning 1 byte / 32 recognisable bytes from a frame that grew its memory beyond 4 KiB, followed by another memory-hungry frame (the deployed code must be exactly those bytes) / 200000 bytes (code deposit unpayable at the lower gas limits) / 250000 bytes (over the size limit) / REVERT / INVALID; the creator records what CREATE pushed; if it reported failure no account, storage, balance or log of the creation frame may remain and the endowment is back with the creator; in 30% of them the same init code is a contract-creation TRANSACTION: a failed one leaves no account and its receipt carries no log, a successful one has all effects. Operator-node plans (3%): the become-a-node-operator transaction (a non-contract type that calls the main node contract through the EVM and reads four logs) alone or behind a logging call / a creation in one block: every receipt carries exactly its own logs. Stake-opcode plans (5%): a contract that is the account of a registered miner executes the node's STAKE / UNSTAKE / UNSTAKEALL opcode inside a STATICCALL (25%: plain CALL as control); its balance and the miner record must be unchanged afterwards; or a contract AUTHs itself with an externally owned account's signature and AUTHCALLs a sink with value inside a STATICCALL: the account's nonce and the sink's balance must be unchanged. Cross-transaction plans (15%): 2-4 identical-shaped transactions in one block, each TLOADs a slot, records it, TSTOREs, touches storage and logs: every transaction must read transient storage empty, pay the same gas (no warm access list inherited), and its receipt must carry exactly its own log; in half of them the transactions only warm ADDRESSES (account-access opcodes, an inner CREATE, a deployment transaction) and every probe transaction not first in the block must use exactly the gas it uses alone in a block on the same parent state. distinct_nontrivial = distinct tree shapes (kinds, endings, effects, gas shares) with at least one failing inner frame.",
 		Assumptions: []string{"frame effects use per-frame slots/topics so that every observed value is attributable to one frame", "SELFDESTRUCT only as the ending of a CALL-kind frame (its own contract), beneficiary a sink account"},
 		Real:        []string{"vm (EVM call/create/static handling, interpreter, gas)", "executor contract executor", "core/vmexecutor (Prepare, snapshot/revert, receipts)", "storage/account (journal, access list, transient storage, logs)"},
 		Stub:        []string{"ConsensusHelper", "network"},
@@ -99,6 +100,11 @@ func (c12) Gen(seed uint64, tier string) json.RawMessage {
 	if r.Chance(0.05) {
 		p.SS = []string{"stake", "unstake", "unstakeall", "authcall"}[r.Intn(4)]
 		p.SSPlain = r.Chance(0.25)
+		b, _ := json.Marshal(p)
+		return b
+	}
+	if r.Chance(0.03) {
+		p.NodeTx = r.Range(1, 3)
 		b, _ := json.Marshal(p)
 		return b
 	}
@@ -274,6 +280,9 @@ func (c12) Exec(raw json.RawMessage, st *simrt.Stats, log *simrt.Log) *simrt.Vio
 	}
 	if p.SS != "" {
 		return c12StaticStake(&p, ec, st, log)
+	}
+	if p.NodeTx > 0 {
+		return c12NodeTx(&p, ec, st, log)
 	}
 	if p.Cross > 0 {
 		return c12Cross(&p, ec, st, log)
@@ -1080,6 +1089,88 @@ func c12FailedCreateTx(p *c12Plan, init evmasm.Code, where string, ec *execChain
 	if !initLog || len(rc.Logs) != 1 || post.GetState(created, slot1) != common.BigToHash(big.NewInt(0x55)) || len(post.GetCode(created)) != want {
 		return viol(0, "successful-creation-incomplete", "creation-tx/"+where, "the creation transaction succeeded but account %s has %d bytes of code (returned %d), slot 1 = %x, %d logs in the receipt (init-code log: %v)",
 			created.GetHexString(), len(post.GetCode(created)), want, post.GetState(created, slot1).Bytes()[31:], len(rc.Logs), initLog)
+	}
+	return nil
+}
+
+// ---- a non-contract transaction type that runs the EVM ----
+
+// c12NodeTx: the "become a node operator" transaction calls the main node contract through the EVM and reads
+// the new operator account from the four logs of that call. It follows another EVM transaction in the same
+// block: its receipt must carry exactly its own four logs and the earlier transaction's receipt exactly its own.
+func c12NodeTx(p *c12Plan, ec *execChain, st *simrt.Stats, log *simrt.Log) *simrt.Violation {
+	viol := func(ev int, clause, where, f string, a ...interface{}) *simrt.Violation {
+		return simrt.Violationf("C12", clause, where, ev, f, a...)
+	}
+	main := common.MainNodeContract()
+	laddr := c12Addr(710)
+	opAccount := c12Addr(711)
+	var mc evmasm.Code
+	mc.Push(0).Push(0).Op(0xa0).Push(0).Push(0).Op(0xa0).Push(0).Push(0).Op(0xa0) // three LOG0
+	mc.PushBytes(common.BytesToHash(opAccount.Bytes()).Bytes()).Push(0).Op(evmasm.MSTORE).Push(32).Push(0).Op(0xa0).Op(evmasm.STOP)
+	var lc evmasm.Code
+	lc.Log1(0xBEEF, 3).Op(evmasm.STOP)
+	common.SetBlockHeight(ec.height)
+	s0 := ec.state()
+	s0.SetCode(main, mc)
+	s0.SetNonce(main, 1)
+	s0.SetCode(laddr, lc)
+	s0.SetNonce(laddr, 1)
+	root, err := s0.Commit(true)
+	if err == nil {
+		err = middleware.AccountDBManagerInstance.GetTrieDB().Commit(root, false)
+	}
+	if err != nil {
+		panic(runner.InfraError{Msg: "c12 node-tx deploy: " + err.Error()})
+	}
+	ec.root = root
+	apply := node.TxSpec{K: "apply", From: 0, Miner: 23, MType: 0, Stake: 600, Salt: fmt.Sprintf("c12nt-%d", p.Seed)}.Build()
+	rcs, _, _, _ := ec.execBlock(ec.height+1, []*types.Transaction{apply}, true)
+	if len(rcs) != 1 || rcs[0].Status != types.ReceiptStatusSuccessful {
+		st.Probe("node_tx_setup_refused")
+		return nil
+	}
+	nodeTx := node.TxSpec{K: "node", From: 0, Salt: fmt.Sprintf("c12ntn-%d", p.Seed)}.Build()
+	var txs []*types.Transaction
+	switch p.NodeTx {
+	case 1:
+		txs = append(txs, node.TxSpec{K: "call", From: 1, To: laddr.GetHexString(), Gas: 60000000, Salt: fmt.Sprintf("c12ntc-%d", p.Seed)}.Build())
+	case 3:
+		var init evmasm.Code
+		init.Log1(0xC0DE, 7).Push(1).Push(0).Op(evmasm.RETURN)
+		txs = append(txs, node.TxSpec{K: "create", From: 1, Data: hex.EncodeToString(init), Gas: 60000000, Salt: fmt.Sprintf("c12ntd-%d", p.Seed)}.Build())
+	}
+	txs = append(txs, nodeTx)
+	st.Fault("operator_node_transaction")
+	receipts, _, _, _ := ec.execBlock(ec.height+1, txs, true)
+	if len(receipts) != len(txs) {
+		return viol(0, "no-receipt", "node-tx", "%d receipts for %d transactions", len(receipts), len(txs))
+	}
+	st.State(simrt.HashString(fmt.Sprintf("nodetx|%d|%d", p.NodeTx, receipts[len(receipts)-1].Status)))
+	st.Nontrivial(simrt.HashString(fmt.Sprintf("nodetx|%d", p.NodeTx)))
+	for k, rc := range receipts {
+		own := 1
+		if k == len(receipts)-1 {
+			own = 4
+			if rc.Status != types.ReceiptStatusSuccessful {
+				st.Probe("node_tx_failed")
+				own = 0
+			} else {
+				st.Probe("node_tx_succeeded")
+			}
+		}
+		log.Add("nodetx=%d receipt %d status=%d logs=%d msg=%.60s", p.NodeTx, k, rc.Status, len(rc.Logs), rc.Msg)
+		if len(rc.Logs) != own {
+			return viol(k, "receipt-logs-wrong", "operator-node-tx", "receipt %d of %d (the operator-node transaction is the last) carries %d logs, the transaction emitted %d", k, len(receipts), len(rc.Logs), own)
+		}
+		for _, l := range rc.Logs {
+			if l.TxHash != (common.Hash{}) && l.TxHash != rc.TxHash {
+				return viol(k, "receipt-logs-wrong", "operator-node-tx", "receipt %d carries a log stamped with another transaction's hash", k)
+			}
+			if k == len(receipts)-1 && l.Address != main {
+				return viol(k, "receipt-logs-wrong", "operator-node-tx", "the operator-node transaction's receipt carries a log of %s", l.Address.GetHexString())
+			}
+		}
 	}
 	return nil
 }
